@@ -72,9 +72,13 @@ func (m *Model) PullMeterReadings(ctx context.Context, opts ...resource.ReadOpti
 		defer close(send)
 		for change := range recv {
 			value := change.Value.(*traits.MeterReading)
-			send <- PullMeterReadingChange{
+			select {
+			case send <- PullMeterReadingChange{
 				Value:      value,
 				ChangeTime: change.ChangeTime,
+			}:
+			case <-ctx.Done():
+				return
 			}
 		}
 	}()
